@@ -668,8 +668,8 @@ func (c *checker) judge(w *world, sc *scenario, tc tcase, stored []int, vec, ref
 		if !removed && parentKnown(w, sc, stored, u) && strings.HasPrefix(vec[idx[u.parent]], "R") {
 			removed, why = true, "belongs to split parent "+u.parent+" which is removed by a tombstone"
 		}
-		if !removed {
-			continue
+		if !removed || strings.Contains(vec[idx[u.name]], "+L") {
+			continue // a locked object is not reclaimable by definition
 		}
 		if !listed[u.addr] || !deleted[u.addr] {
 			c.violation("removed-object-not-reclaimable:"+describe(w, sc, stored, u.name, tc.Epoch),
